@@ -485,11 +485,11 @@ func genAppConsts(repo string) (string, error) {
 	}
 	rv, sv, mv := at.Recv.List[0].Names[0].Name, at.Type.Params.List[0].Names[0].Name, at.Type.Params.List[1].Names[0].Name
 	ta := &tr{rename: map[string]string{
-		"len(" + rv + ".Members)":   "len_members",
-		rv + ".Members[" + sv + "]":  "is_member",
-		rv + ".TxCounts[" + sv + "]": "tx_count",
+		"len(" + rv + ".Members)":                                     "len_members",
+		rv + ".Members[" + sv + "]":                                   "is_member",
+		rv + ".TxCounts[" + sv + "]":                                  "tx_count",
 		rv + ".NonceTracker.Check(" + sv + "," + mv + ".RandomNonce)": "nonce_fresh",
-		"MaxTxsPerBlock": "gen_max_txs_per_block"}}
+		"MaxTxsPerBlock":                                              "gen_max_txs_per_block"}}
 	atBody := ta.stmts(at.Body.List)
 	if ta.err != nil {
 		return "", fmt.Errorf("AddTx: %v", ta.err)
